@@ -99,12 +99,18 @@ LIB: Dict[str, Dict[str, Any]] = {
                                         fn=lambda xs: _must_float(sum(xs))),
     "VInPlaceScaleOp": dict(kind="operation", params=[("k", 1.5)], inp="Float", out="Float", fn=lambda d, k: _mul(d, k)),
     "VNoneDefaultProbe": dict(kind="probe", params=[("tag", None)], inp="Float", fn=lambda d, tag: {"tag": tag, "d": d}),
+    "VDefaultsProbe": dict(kind="probe", params=[("n", 2), ("label", "x"), ("flag", True)], inp="Float",
+                           fn=lambda d, n, label, flag: {"n": n, "label": label, "flag": flag, "d": d}),
     "VCtxWriteOp": dict(kind="operation", params=[("w", NODEF)], inp="Float", out="Float", writes=["w_key"],
                         fn=None),
     "VLongTailOp": dict(kind="operation", params=[], inp="Float", out="Float", writes=["long_key"], fn=None),
     "VUndeclaredWriteOp": dict(kind="operation", params=[], inp="Float", out="Float", fn=None),
     "VRaiseOp": dict(kind="operation", params=[("kind", "value")], inp="Float", out="Float", fn=None),
     "VInitFaultOp": dict(kind="operation", params=[], inp="Float", out="Float", fn=lambda d: d),
+    "VArrayDefaultOp": dict(kind="operation", params=[("gain", 1.0)], inp="Float", out="Float", fn=lambda d, gain: _must_float(d * gain * 3.0)),
+    "VArrayDefaultProbe": dict(kind="probe", params=[], inp="Float", fn=lambda d: d * 2.0),
+    # not a component at all: a processor reference nothing resolves (configuration error at node construction)
+    "NoSuchProcessorXYZ": dict(kind="operation", params=[], inp="Float", out="Float", fn=lambda d: d),
     "VNestedParamOp": dict(kind="operation", params=[("opts", NODEF)], inp="Float", out="Float",
                            fn=lambda d, opts: _must_float(d * float(
                                (opts.get("k", 1.0) if isinstance(opts, dict) else 1.0)
